@@ -769,7 +769,15 @@ func genSSADoc(t *rapid.T, write bool) (ssaDoc, map[string]bool) {
 				}
 				run.Text = fixJoin(joined, run.Text, ssaTextOpts.forbid)
 				joined += run.Text
+				// adjacent override blocks: a block directly followed by another one is a run without text
+				if run.Effect != "" && rapid.IntRange(0, 3).Draw(t, "adjacent") == 0 {
+					runs = append(runs, ssaRun{Effect: rapid.SampledFrom(ssaOverrides).Draw(t, "override2")})
+				}
 				runs = append(runs, run)
+				// a block at the very end of the line
+				if k == nr-1 && rapid.IntRange(0, 5).Draw(t, "trailing-block") == 0 {
+					runs = append(runs, ssaRun{Effect: rapid.SampledFrom(ssaOverrides).Draw(t, "override3")})
+				}
 			}
 			e.Lines = append(e.Lines, runs)
 		}
